@@ -121,3 +121,88 @@ void h_gcdlcm64_scaled(void)
     if (A != 0 && B != 0) { ASSERT(l % (A << 20) == 0 && l % (B << 20) == 0, "lcm is a common multiple (wide values)"); }
     VERIF_CANARY();
 }
+
+/* ---- [P] lcm against the contract of gcd (the callee is replaced by its contract: a caller is checked against the callee's
+        contract, not its body): for ALL 64-bit (32-bit) argument pairs a_uNN_lcm consults the gcd of exactly its two full-width
+        arguments once (a narrowed or different gcd call is visible for every argument pair), and returns 0 when that gcd is 0.  The value (a / g) * b is decided on the bounded domains only. ---- */
+unsigned verif_gcd_calls;
+a_u64 verif_gcd_a, verif_gcd_b, verif_gcd_g;
+#ifndef VERIF_NATIVE
+a_u64 contract_a_u64_gcd(a_u64 a, a_u64 b)
+    __CPROVER_assigns(verif_gcd_calls, verif_gcd_a, verif_gcd_b)
+    __CPROVER_ensures(verif_gcd_calls == __CPROVER_old(verif_gcd_calls) + 1 && verif_gcd_a == a && verif_gcd_b == b)
+    __CPROVER_ensures(__CPROVER_return_value == verif_gcd_g);
+a_u32 contract_a_u32_gcd(a_u32 a, a_u32 b)
+    __CPROVER_assigns(verif_gcd_calls, verif_gcd_a, verif_gcd_b)
+    __CPROVER_ensures(verif_gcd_calls == __CPROVER_old(verif_gcd_calls) + 1 && verif_gcd_a == a && verif_gcd_b == b)
+    __CPROVER_ensures(__CPROVER_return_value == (a_u32)verif_gcd_g);
+#endif
+void h_lcm64_protocol(void)
+{
+    ND(a_u64, a, u64); ND(a_u64, b, u64); ND(a_u64, g, u64);
+    /* g: whatever the gcd routine returns (its own contract - divides both, zero only for two zeros - is not needed for this step) */
+    verif_gcd_calls = 0; verif_gcd_g = g;
+    a_u64 l = a_u64_lcm(a, b);
+    ASSERT(verif_gcd_calls == 1 && verif_gcd_a == a && verif_gcd_b == b, "lcm64: consults the 64-bit gcd of its two full-width arguments, once");
+    if (g == 0) { ASSERT(l == 0, "lcm64: 0 when the gcd is 0"); } /* the value (a / g) * b for g != 0 needs two divider/multiplier circuits proved equal - out of the solvers' reach; bounded units */
+    VERIF_CANARY();
+}
+void h_lcm32_protocol(void)
+{
+    ND(a_u32, a, u32); ND(a_u32, b, u32); ND(a_u32, g, u32);
+    verif_gcd_calls = 0; verif_gcd_g = g;
+    a_u32 l = a_u32_lcm(a, b);
+    ASSERT(verif_gcd_calls == 1 && verif_gcd_a == a && verif_gcd_b == b, "lcm32: consults the gcd of its two arguments, once");
+    if (g == 0) { ASSERT(l == 0, "lcm32: 0 when the gcd is 0"); }
+    VERIF_CANARY();
+}
+
+/* ---- [B] lcm on wide values: a = A * 2^33 (above 32 bits), b = B, A, B < GCD_BOUND: lcm * gcd == a * b, common multiple ---- */
+void h_lcm64_wide(void)
+{
+    a_u64 A = nondet_u64(), B = nondet_u64();
+    ASSUME(A < GCD_BOUND && B < GCD_BOUND && A != 0 && B != 0);
+    a_u64 a = A << 33, b = B;
+    a_u64 g = a_u64_gcd(a, b), l = a_u64_lcm(a, b), l2 = a_u64_lcm(b, a);
+    ASSERT(l % a == 0 && l % b == 0, "lcm is a common multiple (one argument above 2^32)");
+    ASSERT(l * g == a * b && l2 == l, "lcm * gcd == a * b (one argument above 2^32, product representable), symmetric");
+    VERIF_CANARY();
+}
+
+/* ---- [B] square root around perfect squares of every magnitude: n = 2^k + j and n = 2^k - 1 - j (j < 4, every k): the root of
+        n^2 - 1 is n - 1, of n^2 is n, of n^2 + 2n (the last value below (n+1)^2) is n ---- */
+void h_sqrt64_squares(void)
+{
+    ND(unsigned, j, u32); ND(unsigned, k, u32);
+#ifdef BELOW
+    _Bool const below = BELOW;
+#else
+    ND(_Bool, below, bool);
+#endif
+    ASSUME(j < 4 && 2 <= k && k <= 32);
+    int ok0, ok1, ok2;
+    a_u64 n = below ? ((a_u64)1 << k) - 1 - j : ((a_u64)1 << k) + j;
+    ASSUME((n >> 32) == 0 && n >= 1);
+    ok0 = a_u64_sqrt(n * n) == n;
+    ok1 = a_u64_sqrt(n * n - 1) == n - 1;
+    ok2 = a_u64_sqrt(n * n + 2 * n) == n;
+    ASSERT(ok0, "sqrt64: the root of n^2 is n (n = 2^k + j, 2^k - 1 - j)");
+    ASSERT(ok1, "sqrt64: the root of n^2 - 1 is n - 1");
+    ASSERT(ok2, "sqrt64: the root of n^2 + 2n = (n+1)^2 - 1 is n");
+    VERIF_CANARY();
+}
+void h_sqrt32_squares(void)
+{
+    ND(unsigned, j, u32); ND(_Bool, below, bool); ND(unsigned, k, u32);
+    ASSUME(j < 4 && 2 <= k && k <= 16);
+    int ok0, ok1, ok2;
+    a_u32 n = below ? ((a_u32)1 << k) - 1 - j : ((a_u32)1 << k) + j;
+    ASSUME((n >> 16) == 0 && n >= 1);
+    ok0 = a_u32_sqrt(n * n) == n;
+    ok1 = a_u32_sqrt(n * n - 1) == n - 1;
+    ok2 = a_u32_sqrt(n * n + 2 * n) == n;
+    ASSERT(ok0, "sqrt32: the root of n^2 is n (n = 2^k + j, 2^k - 1 - j)");
+    ASSERT(ok1, "sqrt32: the root of n^2 - 1 is n - 1");
+    ASSERT(ok2, "sqrt32: the root of n^2 + 2n = (n+1)^2 - 1 is n");
+    VERIF_CANARY();
+}
